@@ -43,6 +43,9 @@ fn check_value(ctx: &mut Ctx, f: &sv::SOH, want: (&[u32], &[u32]), what: &str) -
     // the library's own validation must agree
     ensure!(ctx, f.clone().validate().is_ok(), "output-well-formed", "{what}: result fails the library's own validate()");
     ctx.sub("output-type");
+    // the trait methods are the inherent ones
+    ensure!(ctx, sv::unty(&Arrow::source(f)) == sv::unty(&f.source()) && sv::unty(&Arrow::target(f)) == sv::unty(&f.target()), "output-type", "{what}: Arrow::source/target differ from the inherent methods");
+    ensure!(ctx, f.h.is_discrete() == (d.edges.is_empty()), "output-well-formed", "{what}: is_discrete() = {} but the result has {} hyperedges", f.h.is_discrete(), d.edges.len());
     let (s, t) = (sv::unty(&f.source()), sv::unty(&f.target()));
     ensure!(ctx, s == want.0 && t == want.1, "output-type", "{what}: result has type {:?} -> {:?} but the operation promises {:?} -> {:?}", s, t, want.0, want.1);
     ensure!(ctx, d.source_type() == want.0 && d.target_type() == want.1, "output-type", "{what}: decoded type differs");
@@ -63,7 +66,11 @@ fn pipeline(t: &mut Tape, ctx: &mut Ctx) -> CheckResult {
         0 => {
             let a = type_list(t, al, 3);
             log.push_str(&format!("identity({:?})", a));
-            (sv::SOH::identity(sv::ty(&a)), a.clone(), a)
+            // the empty hypergraph is the discrete one on no nodes
+            let e = sv::SH::empty();
+            let em = sv::from_strict_h(&e).map_err(|er| ctx.fail("output-well-formed", format!("Hypergraph::empty(): {er}")))?;
+            ensure!(ctx, em.nodes.is_empty() && em.edges.is_empty() && e.is_discrete(), "output-well-formed", "Hypergraph::empty() is not empty");
+            (<sv::SOH as Arrow>::identity(sv::ty(&a)), a.clone(), a)
         }
         1 => {
             let (a, b) = (type_list(t, al, 3), type_list(t, al, 3));
